@@ -98,6 +98,14 @@ func newVMMode(log *[][]any, mode int) *otto.Otto {
 		return v
 	})
 	vm.Set("CBARG", func(call otto.FunctionCall) otto.Value { return cbArg })
+	// SL(n): Go code that configures the stack depth limit while a script is running (the
+	// specification's host function of kind hostlimit)
+	vm.Set("SL", func(call otto.FunctionCall) otto.Value {
+		if n, err := call.Argument(0).ToInteger(); err == nil && n >= 0 {
+			call.Otto.SetStackDepthLimit(int(n))
+		}
+		return otto.UndefinedValue()
+	})
 	return vm
 }
 
